@@ -248,9 +248,11 @@ class Gen:
         pre = self.expr(1) + [("push", 0), "MSTORE"]          # argument word at mem[0]
         value = [("push", r.choice([0, 0, 1, 1000]))] if r.random() < 0.7 else self.expr(0)
         ret_size, ret_off = r.choice([0, 32, 64, 64, 96]), r.choice([64, 96])
-        if r.random() < 0.5:
+        if r.random() < 0.7:
             # the output window is not fresh memory: what the callee does not overwrite must survive
-            pre += self.expr(0) + [("push", ret_off + r.choice([0, 32, 33, 64])), "MSTORE"]
+            # (mostly the LAST word of the window: callees return 0, 32, 64 or 96 bytes)
+            tail = max(0, ret_size - 32) if r.random() < 0.7 else r.choice([0, 32, 33, 64])
+            pre += (self.expr(0) if r.random() < 0.5 else [("push", 0xD1D1D1D1)]) + [("push", ret_off + tail), "MSTORE"]
         items = pre + [("push", ret_size), ("push", ret_off), ("push", r.choice([0, 32, 36])), ("push", 0)]
         if kind in ("CALL", "CALLCODE"):
             items += value
@@ -436,7 +438,7 @@ class Gen:
         if epilogue:
             c = self.r.random()
             if c < 0.75:
-                sizes = [96, 224, 256, 256] if "call" in self.f else [32, 64, 96, 224]
+                sizes = [224, 256, 256] if "call" in self.f else [32, 64, 96, 224]
                 items += [("push", self.r.choice(sizes)), "PUSH0", "RETURN"]
             elif c < 0.85:
                 items += ["STOP"]
